@@ -1,3 +1,4 @@
+#define FRGV_LIVE_COUNT
 /* hash_map harnesses (C14, C16): class B - one operation from every well-formed table of a small family.
  * The table is built constructively: capacity HM_CAP buckets, HM_N entries with distinct keys 1..HM_N placed in bucket
  * H[key] % capacity, where H is an arbitrary (symbolic) function of the key - "any hash function, including colliding ones". */
@@ -100,4 +101,5 @@ void h_hm(void)
 #endif
 	FRGV_CANARY();
 	hm_dtor(&m);
+	FRGV_NONE_LIVE();
 }
